@@ -222,6 +222,16 @@ func (c *Cluster) Stop(i int) {
 	c.Log.Add(Event{Kind: "stopped", Server: i, Call: -1})
 }
 
+// Partition makes server i unreachable without stopping it: new connection attempts to its
+// address get no answer (they block until Fab.Unblock/UnblockAll) and the established
+// connections break. It is logged as a stop: for the client the node has failed.
+func (c *Cluster) Partition(i int) {
+	c.Fab.Block(Addr(i))
+	c.Log.Add(Event{Kind: "stop", Server: i, Call: -1, Note: "partition"})
+	n := c.Fab.Cut(Addr(i))
+	c.Log.Add(Event{Kind: "stopped", Server: i, Call: -1, N: n, Note: "partition"})
+}
+
 // Cut breaks the established connections to server i; the server keeps running and listening.
 func (c *Cluster) Cut(i int) {
 	n := c.Fab.Cut(Addr(i))
